@@ -177,6 +177,16 @@ class Run:
     def verify_noub(self, name, inputs, calls, assume, kind="verify", **kw):
         return self._add(Ob(name, kind, inputs, calls, assume, None, ub=True, **kw))
 
+    def verify_noub_layered(self, name, inputs, mkcalls, assume, **kw):
+        """'some UB site reachable' with the multiplier-free sufficient condition for signed-multiplication overflow first
+        (unsat carries over), the exact condition as fallback.  mkcalls(opts_kwargs) -> list of Call"""
+        def build(ab):
+            calls = mkcalls(dict(mul_ovf="bits" if ab else "exact"))
+            return Ob(name, "verify", inputs, calls, assume, None, ub=True, abstract=ab, **kw)
+        ob = build(True)
+        ob.fallback = lambda: build(False)
+        return self._add(ob)
+
     # ----------------------------------------------------------------- known findings
     def known_for(self, ob):
         out = []
@@ -477,7 +487,8 @@ class Run:
             elif out.status == "unsat":
                 ob.verdict, ob.detail = "inconclusive", "vacuous: reachability witness is unsat"
             else:
-                ob.verdict, ob.detail = "inconclusive", "witness " + out.status
+                # a vacuity guard that the solver could not answer in time does not invalidate the verify obligations
+                ob.verdict, ob.detail = "witness-unknown", "witness " + out.status
             return
         if out.status == "unsat":
             ob.verdict = "discharged"
